@@ -234,7 +234,9 @@ def judgeAccepted (env : Env) (s : State) (c : Call) (r : Response) (s' : State)
     ((s'.asks.all fun kv => decide (kv.2.size > 0)) &&
      (s'.bids.all fun kv => match kv.2 with | .v3 b => decide (b.remBase > 0) | .v2 _ => true))
   let v := v.check "C17" "C17_attrsOK" (C17_attrsOK s c r s')
-  let v := v.check "C12" "C12_modifyOK" (C12_modifyOK s c.msg s')
+  -- (judged from configurations whose stored rates parse, as every configuration written by the
+  -- contract does: the theorem's hypothesis `infoSane`)
+  let v := if infoSane s.info then v.check "C12" "C12_modifyOK" (C12_modifyOK s c.msg s') else v
   let v := if feeTracked && feeExact s then
       let v := v.check "C09" "feeExact" (feeExact s')
       s'.bids.foldl (fun v kv =>
